@@ -59,18 +59,18 @@ fn try_main() -> Result<(), anyhow::Error> {
     let args: Vec<&str> = args.iter().map(|arg| arg.as_str()).collect();
 
     if args.len() <= 1 || args.contains(&"--help") || args.contains(&"-h") {
-        print_help();
+        print_help()?;
 
         return Ok(());
     }
 
     match args[1] {
         "-h" | "--help" => {
-            print_help();
+            print_help()?;
             return Ok(());
         }
         "-v" | "--version" => {
-            print_version();
+            print_version()?;
             return Ok(());
         }
         "enc" | "encrypt" => {
@@ -143,12 +143,12 @@ fn slice_args<'a>(args: &'a [&'a str], idx: usize) -> &'a [&'a str] {
     args
 }
 
-fn print_help() {
-    println!("{}", USAGE);
+fn print_help() -> Result<(), anyhow::Error> {
+    commands::print_stdout(USAGE)
 }
 
-fn print_version() {
-    println!("v{}", VERSION);
+fn print_version() -> Result<(), anyhow::Error> {
+    commands::print_stdout(&format!("v{}", VERSION))
 }
 
 fn print_usage_error(msg: &str) -> Result<(), anyhow::Error> {
